@@ -349,6 +349,50 @@ def idspace(F):
                                         continue
                                     r.ob(False, {"comparison": snip, "fn": fn["path"]})
                                     r.violate(key, F.loc(fn, n), "a position in `%s` (a %s-indexed collection) is compared with the payload of a %s: the two index spaces differ as soon as the module has imports of several kinds" % (coll, want, B.split("::")[-1]))
+    # cursor fields: a field used as the index into a vector whose elements *carry* ids of space A (`metadata[curr_idx]`,
+    # metadata: Vec<(FunctionID, usize)>) is a position in that list; an A built from arithmetic over the cursor claims the
+    # list is the identity on A, which the explicit ids in it exist to deny (it holds only until an import is added)
+    cursors = {}
+    for fn in F.all_fns:
+        if fn.get("body") is None:
+            continue
+        for x in walk(fn["body"]):
+            if x.get("k") != "Index":
+                continue
+            bt = x.get("base_ty", "") or ""
+            if "Vec<" not in bt:
+                continue
+            inner = bt[bt.index("Vec<") + 4:]
+            held = [i for i in ids if i in inner and "HashMap" not in inner]
+            ix = peel(x["index"])
+            while isinstance(ix, dict) and ix.get("k") == "Cast":
+                ix = peel(ix["a"])
+            if held and isinstance(ix, dict) and ix.get("k") == "Field" and ix.get("base_ty"):
+                cursors.setdefault((_base(ix["base_ty"]), ix["name"]), set()).update(held)
+    r.count("cursor_fields", len(cursors))
+    for fn in F.fns:
+        if fn.get("body") is None:
+            continue
+        for n in walk(fn["body"]):
+            if n.get("k") != "Call":
+                continue
+            fr = n.get("fres") or {}
+            A = fr.get("adt") if fr.get("dk", "").startswith("Ctor") or fr.get("r") == "self" else None
+            if A not in ids or not n["args"]:
+                continue
+            for x in walk(n["args"][0]):
+                if x.get("k") == "Field" and (_base(x.get("base_ty", "") or ""), x["name"]) in cursors and A in cursors[(_base(x["base_ty"]), x["name"])]:
+                    # not when the field is itself only the subscript of an Index inside the argument (`list[cur].0`)
+                    inside_index = any(y.get("k") == "Index" and any(z is x for z in walk(y["index"])) for y in walk(n["args"][0]))
+                    if inside_index:
+                        continue
+                    snip = snippet(_repo(), fn["file"], n["sp"])
+                    key = "%s | %s from cursor %s" % (fn["path"], A.split("::")[-1], x["name"])
+                    if key in reviewed:
+                        r.ob(True, {"fn": fn["path"], "reviewed": reviewed[key]["reason"]})
+                        continue
+                    r.ob(False, {"ctor": snip, "fn": fn["path"], "cursor": x["name"]})
+                    r.violate(key, F.loc(fn, n), "%s is computed from `%s`, the position in a list that stores %ss explicitly: position and id coincide only while the list is the identity (no imports added, nothing deleted)" % (A.split("::")[-1], x["name"], A.split("::")[-1]))
     # `impl GetID for T`: the id an element reports is its own index-space id — every ID newtype the accessor touches is one
     # and the same (an imported memory's `import_id` is its position among the imports, not among the memories)
     for g in F.fns:
@@ -592,11 +636,12 @@ def reorg_inv(F):
 
     judged = 0
     n_paths = 0
-    for A, K in ((True, None), (False, None), (False, "import"), (True, "local")):
-        def val(c, A=A, K=K):
+    for A, K, D in ((True, None, False), (False, None, False), (False, "import", False), (True, "local", False),
+                    (True, "import", True), (True, "local", True), (False, "import", True), (False, "local", True)):
+        def val(c, A=A, K=K, D=D):
             c = peel(c)
             if K is not None and c.get("k") == "MethodCall" and c.get("method") in ("is_import", "is_local", "is_deleted") and not c.get("args"):
-                return {"is_import": K == "import", "is_local": K == "local", "is_deleted": False}[c["method"]]
+                return {"is_import": K == "import", "is_local": K == "local", "is_deleted": D}[c["method"]]
             if is_atom_expr(c):
                 return A
             if c.get("k") == "Path" and c.get("res", {}).get("hid") in atom_locals:
@@ -679,6 +724,19 @@ def reorg_inv(F):
             if st not in ("fall", "cont"):
                 continue
             seen_paths.add(ev)
+        if D:
+            # deleted clause: the id map built afterwards numbers every element that is still in the list, and emission skips
+            # deleted ones — so a deleted element leaves the list on every path, whatever its kind (an added import that was
+            # deleted again is still `is_import()`; a converted import that was deleted is still `is_local()`)
+            for ev in sorted(seen_paths):
+                net = sum(1 for e in ev if e.startswith("remove:")) - sum(1 for e in ev if e.startswith("insert:")) - ev.count("push")
+                okd = net == 1
+                r.ob(okd, {"case": "%s import prefix, deleted %s" % ("inside" if A else "outside", K), "net removals": net})
+                if not okd:
+                    r.violate("%s | %s prefix deleted %s stays" % (fn["path"], "inside" if A else "outside", K), F.loc(fn),
+                              "a deleted %s found %s the original import prefix is %s instead of being dropped: it keeps a slot in the old→new id map although it is not emitted, so every element behind it is referenced one too high" % (
+                                  K, "inside" if A else "outside", "moved" if any(e.startswith("insert:") or e == "push" for e in ev) else "left in place"))
+            continue
         if K is not None:
             # kind-specific clause: a live import met outside the original import prefix always moves the insertion slot on
             # by one (whether or not the element itself has to be moved); a live local met inside the prefix always gives its
@@ -1195,6 +1253,26 @@ def fresh_ids(F):
                 r.ob(ok, {"arm": v, "id_when_no_locals": ee})
                 if not ok:
                     r.violate("%s | %s fallback id" % (fn["path"], v), F.loc(fn, body["elems"][pos_else]), "the id offered for a new imported %s when there are no locals is `%s`, not self.imports.%s" % (v.lower(), ee, kf["num_imp"]))
+            elif "guard" in arm or any(("guard" in a2) and v in [lf.get("variant") for lf in _alts(a2["pat"])] for a2 in m["arms"] if a2 is not arm):
+                # guarded-arm shape: `K(..) if self.num_local_K > 0 => self.K.len() as u32,  K(..) => self.imports.num_K`
+                if "guard" in arm:
+                    gc = peel(arm["guard"])
+                    okg = gc.get("k") == "Binary" and gc.get("op") in (">", "!=") and (place_path(gc["a"]) or "") == "self." + kf["num_local"] and lit_int(peel(gc["b"]).get("lit")) == 0
+                    r.ob(okg, {"arm": v, "guard": place_path(gc.get("a") or {})})
+                    if not okg:
+                        r.violate("%s | %s guard counter" % (fn["path"], v), F.loc(fn, arm["guard"]), "the has-locals guard of the %s arm does not read self.%s > 0" % (v, kf["num_local"]))
+                    lp = _len_of(body)
+                    ok = lp == "self." + kf["coll"]
+                    r.ob(ok, {"arm": v, "id_when_locals_exist": lp or "not a len()"})
+                    if not ok:
+                        r.violate("%s | %s id source" % (fn["path"], v), F.loc(fn, body),
+                                  "the id offered for a new imported %s when local ones exist is not `self.%s.len()` (ids are positions in that vector): a later lookup by this id addresses a different element" % (v.lower(), kf["coll"]))
+                else:
+                    ee = place_path(body) or ""
+                    ok = ee == "self.imports." + kf["num_imp"] or _len_of(body) == "self." + kf["coll"]
+                    r.ob(ok, {"arm": v, "id_when_no_locals": ee})
+                    if not ok:
+                        r.violate("%s | %s fallback id" % (fn["path"], v), F.loc(fn, body), "the id offered for a new imported %s when there are no locals is `%s`, not self.imports.%s" % (v.lower(), ee, kf["num_imp"]))
             else:
                 has_len = any(_len_of(x) == "self." + kf["coll"] for x in walk(body) if isinstance(x, dict) and x.get("k") in ("MethodCall", "Cast"))
                 r.ob(has_len, {"arm": v, "shape": "unrecognised; len() of the collection present: %s" % has_len})
@@ -1278,6 +1356,74 @@ def fresh_ids(F):
                 r.violate("%s | raw push onto %s" % (fn_["path"], rv["name"]), F.loc(fn_, c),
                           "%s pushes onto `%s` without taking the element's id from the collection's length first: whatever id the element carries is not its position, and every lookup by id (and the old→new id map built at encode) is off" % (fn_["name"], rv["name"]))
     r.count("raw_pushes", n_raw)
+    # --- id bases while parsing: `K(base + i)` in code reachable from parse, where `base` is a counter field that no
+    # parse-reachable code ever writes, builds ids from a constant (the field's initial value): the local entities then
+    # take ids 0.. although imports of that kind already hold them
+    from vlib import mirutil
+    roots = [f["path"] for f in F.fns if f["name"] in ("parse", "parse_internal", "parse_comp")
+             and (f.get("self_adt") or "").endswith(("::Module", "::Component"))]
+    seen, _ = mirutil.reachable_fns(F, roots, mirutil.build_callgraph(F))
+    ids = {a["path"] for a in F.raw["adts"] if a["path"].startswith(ID_ADTS_PREFIX)}
+
+    def writers(adt, field):
+        inside, outside = [], []
+        for g in F.all_fns:
+            if g.get("body") is None:
+                continue
+            hit = False
+            for x in walk(g["body"]):
+                if x.get("k") in ("Assign", "AssignOp"):
+                    l = peel(x["lhs"])
+                    if l.get("k") == "Field" and l["name"] == field and _base(l.get("base_ty", "") or "") == adt:
+                        hit = True
+                # `&mut X.f` handed to a callee or bound to a `counter` reference: a write through it cannot be excluded
+                if x.get("k") == "AddrOf" and x.get("mut"):
+                    l = peel(x["a"])
+                    if l.get("k") == "Field" and l["name"] == field and _base(l.get("base_ty", "") or "") == adt:
+                        hit = True
+                if x.get("k") == "Struct" and "pats" not in x and (x.get("adt") or "") == adt and isinstance(x.get("fields"), list):
+                    for fname, val in x["fields"]:
+                        v = peel(val) if isinstance(val, dict) else {}
+                        zero = (v.get("k") == "Lit" and lit_int(v.get("lit")) == 0) or \
+                               (v.get("k") == "Call" and "Default::default" in (v.get("callee") or v.get("inst") or "") and not v.get("args"))
+                        if fname == field and not zero:
+                            hit = True
+            if hit:
+                root = g["path"] if g["kind"] != "Closure" else g.get("parent", g["path"])
+                (inside if (g["path"] in seen or root in seen) else outside).append(g["path"])
+        return inside, outside
+    n_bases = 0
+    for p_ in sorted(seen):
+        for fn_ in F.by_path.get(p_, []):
+            if fn_.get("body") is None:
+                continue
+            for n in walk(fn_["body"]):
+                if n.get("k") != "Call":
+                    continue
+                fr = n.get("fres") or {}
+                A = fr.get("adt") if fr.get("dk", "").startswith("Ctor") or fr.get("r") == "self" else None
+                if A not in ids or not n["args"]:
+                    continue
+                arg = peel(n["args"][0])
+                if not (arg.get("k") == "Binary" and arg["op"] == "+"):
+                    continue
+                for side in (arg["a"], arg["b"]):
+                    b = peel(side)
+                    while isinstance(b, dict) and b.get("k") == "Cast":
+                        b = peel(b["a"])
+                    if not (isinstance(b, dict) and b.get("k") == "Field" and b.get("base_ty")):
+                        continue
+                    adt = _base(b["base_ty"])
+                    if adt not in F.adts:
+                        continue
+                    inside, outside = writers(adt, b["name"])
+                    n_bases += 1
+                    ok = bool(inside) or not outside
+                    r.ob(ok, {"fn": fn_["path"], "id": A.split("::")[-1], "base": "%s.%s" % (adt.split("::")[-1], b["name"]), "written while parsing by": inside[:3]})
+                    if not ok:
+                        r.violate("%s | %s base %s never written while parsing" % (fn_["path"], A.split("::")[-1], b["name"]), F.loc(fn_, n),
+                                  "%s is computed as `%s.%s + i` during parsing, but no code reachable from parse writes that field (only %s do): the base is still its initial value, so the local entities take ids that imported ones already hold" % (A.split("::")[-1], adt.split("::")[-1], b["name"], ", ".join(o.split("::")[-1] for o in outside[:3])))
+    r.count("parse_id_bases", n_bases)
     return r
 
 
